@@ -712,6 +712,7 @@ static void _call_rcu(struct rcu_head *head,
 		      void (*func)(struct rcu_head *head),
 		      struct call_rcu_data *crdp)
 {
+	urcu_verif_point(URCU_VP_CRCU_PRE_ENQUEUE, crdp);
 	cds_wfcq_node_init(&head->next);
 	head->func = func;
 	cds_wfcq_enqueue(&crdp->cbs_head, &crdp->cbs_tail, &head->next);
